@@ -186,7 +186,9 @@ fn history(cfg: &Cfg, rep: &mut Report, permissioned: bool, h: u64, steps: usize
             rep.check("fee", if same { du == 0 } else { du == fee && dr == fee }, &format!("C19/fee/{kind}/forward/wrong-amount-moved"), || format!("fee {fee}: user balance moved by -{du}, recipient by +{dr}"));
             rep.check("log", post_calls == pre_calls + 1, &format!("C19/log/{kind}/forward/target-not-invoked-exactly-once"), || format!("target counter {pre_calls} -> {post_calls}"));
             let want_allow = if needs_approve { max - fee } else { pre_allow - fee };
-            rep.check("ref", post_allow == want_allow, &format!("C19/ref/{kind}/forward/allowance-after"), || format!("allowance {pre_allow} -> {post_allow}, expected {want_allow} (max {max}, fee {fee}, approve issued: {needs_approve})"));
+            // what the forwarder may keep afterwards is bounded by what the user authorized minus what
+            // was charged (an implementation that leaves less, e.g. resets to zero, is fine)
+            rep.check("fee", post_allow <= want_allow, &format!("C19/fee/{kind}/forward/allowance-left-above-authorization"), || format!("allowance {pre_allow} -> {post_allow}, at most {want_allow} may remain (max {max}, fee {fee}, approve issued: {needs_approve})"));
             target_calls += 1;
         } else {
             rep.check("res", post_user == pre_user && post_rec == pre_rec && post_allow == pre_allow && post_calls == pre_calls, &format!("C19/res/{kind}/forward/failed-forward-left-a-trace"), || {
